@@ -207,7 +207,7 @@ func (s *storeRunner) step(r *rng, bad int) {
 				act = "delete"
 			}
 			if r.chance(bad, 300) {
-				act = "upsert"
+				act = r.pick([]string{"upsert", "INSERT", "Delete", "Insert", "DELETE", "insert ", ""}) // actions are exact, lower-case words
 			}
 			switch {
 			case r.chance(bad, 600):
@@ -280,7 +280,7 @@ func (s *storeRunner) step(r *rng, bad int) {
 			sizeTok = size
 		}
 		if r.chance(bad, 200) {
-			tok, tokTok = r.pick([]string{"zzz", "123", "not-a-uuid"}), "bad"
+			tok, tokTok = r.pick([]string{"zzz", "123", "not-a-uuid", "6df0ce80-8b1d-460e-851b-889db595b00z", "not-a-uuid-but-36-characters-long-xx", "zzzzzzzz-zzzz-zzzz-zzzz-zzzzzzzzzzzz", "6df0ce808b1d460e851b889db595b00z"}), "bad"
 		}
 		code, list := s.listREST(p, size, tok)
 		s.out.emit(fmt.Sprintf("listrest %s %s %s", fmtPairs(p), sizeTok, tokTok), s.obs(code, list))
